@@ -138,8 +138,11 @@ def random_scripts(tier, rng, tid0, n):
             x = rng.random()
             hk = rng.randrange(nh[w]) if nh[w] else None
             if x < 0.18 or nh[w] == 0:
-                if rng.random() < 0.8:
+                y = rng.random()
+                if y < 0.65:
                     ops.append({"o": "create", "w": w, "a": rng.choice([None, rng.randrange(100)]), "b": rng.choice([None, -rng.randrange(100)])})
+                elif y < 0.85:
+                    ops.append({"o": "create_marked", "w": w, "a": rng.choice([None, rng.randrange(100)]), "via": rng.choice(["builder", "res"])})
                 else:
                     ops.append({"o": "ecreate", "w": w})
                 nh[w] += 1
